@@ -154,6 +154,9 @@ func (p *Path) Compare(actual []Seg, spec []SegSpec) []string {
 	// normalise actual: expand nothing; compare positionally
 	i := 0
 	for k, s := range spec {
+		if s.Bits == nil && p.ProveEq(s.Len) && (i >= len(actual) || actual[i].Byte != nil || actual[i].Blob != s.Blob) {
+			continue // an expected blob that is empty on this path may be absent
+		}
 		if i >= len(actual) {
 			out = append(out, fmt.Sprintf("output ends after %d segments; expected segment %d = %s", len(actual), k, SpecString([]SegSpec{s})))
 			return out
